@@ -2,11 +2,19 @@
    Property theorems only. The source-level optimisers (CSE, de-inlining, constant folding of the
    strategy optimiser, the cl22 frontend optimiser) are not modelled; for them the property is decided by
    execution (build-vs-build comparison over the C01 matrix and against the reference interpreter).
-   Proved: the rewrite rules of the classic post-optimiser (the `-O` / library-path switch of cl21 and
-   cl22 builds: optimize/mod.rs run_optimizer = stage_2 optimize_sexp) that are proved sound for C04, and
-   fuel monotonicity of the evaluation relation (a build may take more or fewer steps, never change a
-   returned value by that). *)
-From CV Require Import Base.Prelude Base.Val Base.Bytes Clvm.Path Clvm.Eval Clvm.Ops Opt.ClassicOpt Opt.ClassicOptProofs.
+   Proved: the classic post-optimiser (the `-O` / library-path switch of cl21 and cl22 builds, and the final
+   pass of every build: optimize/mod.rs run_optimizer = stage_2 optimize_sexp) never changes a returned value -
+   the whole driver with its eight rules (C02_post_optimiser_sound, shared with C04) - and fuel monotonicity of
+   the evaluation relation (a build may take more or fewer steps, never change a returned value by that). *)
+From CV Require Import Base.Prelude Base.Val Base.Bytes Clvm.Path Clvm.Eval Clvm.Ops Opt.ClassicOpt Opt.ClassicOptProofs Opt.OptimizeSound.
+
+Theorem C02_post_optimiser_sound_partial : forall opf,
+  (forall a b, opf [4] (Cons a (Cons b nilv)) = Some (Cons a b)) ->
+  (forall x, opf [5] (Cons x nilv) = match x with Cons a _ => Some a | Atom _ => None end) ->
+  (forall x, opf [6] (Cons x nilv) = match x with Cons _ b => Some b | Atom _ => None end) ->
+  forall fuel r r', optimize opf fuel r = Done r' ->
+  forall e n v, eval opf n r e = Ok v -> exists m, eval opf m r' e = Ok v.
+Proof. intros opf H1 H2 H3 fuel r r' Ho e n v Hv. exact (optimize_sound opf H1 H2 H3 fuel r r' Ho e n v Hv). Qed.
 
 Theorem C02_post_optimiser_cons_rule_partial : forall opf,
   (forall a b, opf [4] (Cons a (Cons b nilv)) = Some (Cons a b)) ->
